@@ -19,6 +19,10 @@ package main
 //                           result.key != nil  <-  remoteResult{key: key} in the closure passed
 //                           as `onRow`  <-  onRow(m.Key, m.Vals)   ==> RemoteQueryResult.Key, test "nil"
 //
+//   Facts.codecErrorBeforeEnd  in HandleRemoteQueries' receive loop the test of `m.Error` is not
+//                         dominated by the `break` on `m.EndOfResults` (statement order in
+//                         the loop body): the follower reports a failed query ON its final message.
+//
 // test kinds: "nil" (x.F ==/!= nil: sensitive to nil vs empty), "empty" (len(x.F)), "zero"
 // ("" or 0), "bool".  The queryCluster chain is recognised structurally; if it is not found
 // (refactoring) that is a problem string, never a silently empty list.
@@ -552,6 +556,77 @@ func ckClusterChain(pkgs map[string]*codecPkg, msg map[string]bool, fieldsOf map
 	return out, errs
 }
 
+// ckErrorBeforeEnd: in rpc/server/rpc_server.go HandleRemoteQueries' receive loop, is the test
+// `m.Error != ""` reached for a message that also has EndOfResults set?  True iff both tests
+// are statements of the same block and the Error test comes before the
+// `if m.EndOfResults { break }`.  The follower puts its query error ON the final message.
+func ckErrorBeforeEnd(pkgs map[string]*codecPkg) (bool, []string) {
+	sp := pkgs[filepath.Join("rpc", "server")]
+	if sp == nil {
+		return false, []string{"codeckind: package rpc/server not found"}
+	}
+	var fd *ast.FuncDecl
+	for _, f := range sp.files {
+		for _, d := range f.Decls {
+			if x, ok := d.(*ast.FuncDecl); ok && x.Name.Name == "HandleRemoteQueries" && x.Body != nil {
+				fd = x
+			}
+		}
+	}
+	if fd == nil {
+		return false, []string{"codeckind: rpc/server HandleRemoteQueries not found"}
+	}
+	mentions := func(e ast.Expr, field string) bool {
+		found := false
+		ast.Inspect(e, func(n ast.Node) bool {
+			if s, ok := n.(*ast.SelectorExpr); ok && s.Sel.Name == field {
+				found = true
+			}
+			return !found
+		})
+		return found
+	}
+	hasBreak := func(b *ast.BlockStmt) bool {
+		found := false
+		ast.Inspect(b, func(n ast.Node) bool {
+			if br, ok := n.(*ast.BranchStmt); ok && br.Tok == token.BREAK {
+				found = true
+			}
+			return !found
+		})
+		return found
+	}
+	result, seen := false, false
+	ast.Inspect(fd.Body, func(n ast.Node) bool {
+		blk, ok := n.(*ast.BlockStmt)
+		if !ok {
+			return true
+		}
+		errIdx, endIdx := -1, -1
+		for i, st := range blk.List {
+			is, ok := st.(*ast.IfStmt)
+			if !ok {
+				continue
+			}
+			if mentions(is.Cond, "Error") && errIdx < 0 {
+				errIdx = i
+			}
+			if mentions(is.Cond, "EndOfResults") && hasBreak(is.Body) && endIdx < 0 {
+				endIdx = i
+			}
+		}
+		if errIdx >= 0 && endIdx >= 0 {
+			seen = true
+			result = errIdx < endIdx
+		}
+		return true
+	})
+	if !seen {
+		return false, []string{"codeckind: HandleRemoteQueries: the tests of m.Error and of m.EndOfResults (with break) are not statements of one block any more (update tools/extract/codec_kind.go and the model's leaderKind)"}
+	}
+	return result, nil
+}
+
 func genCodecKindFacts(repo string) (string, []string, interface{}) {
 	pkgs, errs := codecLoadPkgs(repo)
 	msgs, merrs := cdCollectMsgTypes(pkgs)
@@ -667,5 +742,9 @@ func genCodecKindFacts(repo string) (string, []string, interface{}) {
 		summary = append(summary, fmt.Sprintf("%s.%s %s (%s %s)", t.msgType, t.field, t.test, t.file, t.fn))
 	}
 	sb.WriteString("]\n\n")
-	return sb.String(), errs, map[string]interface{}{"tags": len(tags), "kind_tests": summary}
+	ebe, eerrs := ckErrorBeforeEnd(pkgs)
+	errs = append(errs, eerrs...)
+	sb.WriteString("/-- HandleRemoteQueries reads `m.Error` before it leaves the receive loop on `m.EndOfResults` (C20) -/\n")
+	fmt.Fprintf(&sb, "def codecErrorBeforeEnd : Bool := %s\n\n", cdLeanBool(ebe))
+	return sb.String(), errs, map[string]interface{}{"tags": len(tags), "kind_tests": summary, "error_before_end": ebe}
 }
